@@ -8,6 +8,8 @@
 import Scale.Entry
 import Scale.Ghost
 import Proofs.Wrappers
+import Proofs.HookTrace
+import Proofs.HookFacts
 namespace Scale.C12
 open Scale
 
@@ -74,6 +76,63 @@ theorem mem_monotone (L L' : Nat) (hL' : L' ≤ usizeMax) (hle : L ≤ L') (ty :
     · -- U = 0 and L' = 0, hence L = 0: the same run
       have : L = L' := by omega
       subst this; exact h
+
+/-! ### The threshold is meaningful: `U` is the heap payload of the value
+
+`payload ty v` (`Scale/HookTrace.lean`) is the property's own wording: element count times element
+size for every sequence, the pointee size for every box, the length of strings and byte buffers,
+the storage words of bit sequences, the crate's node estimate for tree maps and sets — summed over
+nesting. The hook-trace theorem shows that the sizes announced while decoding the encoding of `v`
+— chunk by chunk on the vector paths — add up to exactly that. -/
+
+/-- **`U` is the payload** (capped at `usize::MAX`, where `used_mem` saturates). -/
+theorem tracked_usage_is_payload (ty : Ty) (v : Val) (hwf : wf ty v = true) (hcanon : canon ty v = true)
+    (hl : layoutOk ty = true) (rest : Bytes) :
+    usedMem (Impl.decodeP ty) (Spec.encode ty v ++ rest) = min (payload ty v) usizeMax := by
+  rw [usedMem_eq_memFold, traceOf_encode ty v hwf hcanon hl rest, memFold_eq _ 0 (Nat.zero_le _),
+    allocTotal_hookTrace ty v hwf hl]
+  simp
+
+/-- `U` is zero for values of types holding no heap data. -/
+theorem usage_zero_without_heap (ty : Ty) (v : Val) (hwf : wf ty v = true) (hcanon : canon ty v = true)
+    (hl : layoutOk ty = true) (hf : heapFree ty = true) (rest : Bytes) :
+    usedMem (Impl.decodeP ty) (Spec.encode ty v ++ rest) = 0 := by
+  rw [tracked_usage_is_payload ty v hwf hcanon hl rest, payload_heapFree ty v hf]
+  simp
+
+/-- So a limit really bounds what a decoded value can occupy: if memory-limited decoding of an
+    encoding succeeds, the value's heap payload is below the limit (or the value holds nothing). -/
+theorem limit_bounds_payload (L : Nat) (hL : L ≤ usizeMax) (ty : Ty) (v : Val) (hwf : wf ty v = true) (hcanon : canon ty v = true)
+    (hl : layoutOk ty = true) (rest : Bytes)
+    (hok : (decodeMemLimit L ty (Spec.encode ty v ++ rest)).1 = .ok (norm ty v)) :
+    payload ty v = 0 ∨ payload ty v < L := by
+  have hd : decode ty (Spec.encode ty v ++ rest) = (.ok (norm ty v), rest) := decode_encode ty v hwf hcanon hl rest
+  have hu := tracked_usage_is_payload ty v hwf hcanon hl rest
+  by_cases hpos : usedMem (Impl.decodeP ty) (Spec.encode ty v ++ rest) > 0
+  · by_cases hle : L ≤ usedMem (Impl.decodeP ty) (Spec.encode ty v ++ rest)
+    · have := fails_at_or_below_threshold L ty _ rest _ hd hpos hle
+      rw [hok] at this; cases this
+    · right
+      rw [hu] at hle
+      have : ¬ L ≤ min (payload ty v) usizeMax := hle
+      by_cases hp : payload ty v ≤ usizeMax
+      · rw [Nat.min_eq_left hp] at this; omega
+      · -- the tracked usage saturated at usize::MAX: no limit (a `usize`) exceeds it
+        rw [Nat.min_eq_right (by omega)] at this
+        omega
+  · left
+    rw [hu] at hpos
+    have : min (payload ty v) usizeMax = 0 := by omega
+    have hm : 0 < usizeMax := by decide
+    omega
+
+/-- Tree maps and sets: the crate's estimate is within a factor of two of the entries' own bytes. -/
+theorem tree_estimate_within_factor_two (leaf len e : Nat) (hleaf : 11 * e ≤ leaf) :
+    len * e ≤ 2 * Impl.btreeMemSize leaf len ∨ Impl.btreeMemSize leaf len = usizeMax :=
+  btree_estimate_within_factor_two leaf len e hleaf
+
+example : payload (.seq .vec 8 (.box 24 (.seq .vec 1 (.prim .u8)))) (.seq [.seq [.nat 1, .nat 2], .seq []]) = 66 := by
+  decide
 
 /-! ### Non-vacuity: `Vec<u32>` with 3 elements announces 3 * 4 bytes; a `Box<u64>` announces 8. -/
 example : usedMem (Impl.decodeP (.seq .vec 4 (.prim .u32))) [12, 1, 0, 0, 0, 2, 0, 0, 0, 3, 0, 0, 0] = 12 := by decide
